@@ -90,6 +90,26 @@ def mk_design(wa, wb, rng):
     out('radd_int', cv + a, lambda x, y, cv=cv: (x + cv, max(wa, max(1, cv.bit_length())) + 1))
     out('rsub_int', cv - a, lambda x, y, cv=cv: ((cv - x) & M(max(wa, max(1, cv.bit_length())) + 1), max(wa, max(1, cv.bit_length())) + 1))
     out('and_str', a & ("%d'd%d" % (wb, cv)), lambda x, y, cv=cv: (x & cv, w))
+    # Verilog-style strings in every base; hexadecimal digits that are also base letters (b, d) lead sometimes
+    nd = rng.randint(1, 5)
+    hx = rng.choice('bd' if rng.random() < 0.6 else '123456789acef') + ''.join(rng.choice('0123456789abcdef') for _ in range(nd - 1))
+    hv, hw = int(hx, 16), 4 * nd
+    sep = (lambda t: t[:1] + '_' + t[1:]) if rng.random() < 0.3 and nd > 1 else (lambda t: t)
+    out('and_hex', a & ("%d'h%s" % (hw, sep(hx))), lambda x, y, hv=hv, hw=hw: (x & hv, max(wa, hw)))
+    out('xor_xhex', a ^ ("%d'x%s" % (hw, hx)), lambda x, y, hv=hv, hw=hw: (x ^ hv, max(wa, hw)))
+    out('add_hex', a + ("%d'h%s" % (hw, hx)), lambda x, y, hv=hv, hw=hw: (x + hv, max(wa, hw) + 1))
+    out('lt_hex', a < ("%d'h%s" % (hw, hx)), lambda x, y, hv=hv: (int(x < hv), 1))
+    bv = rng.getrandbits(wb)
+    out('or_bin', a | ("%d'b%s" % (wb, sep(format(bv, '0%db' % wb)))), lambda x, y, bv=bv: (x | bv, w))
+    out('xor_oct', a ^ ("%d'o%o" % (wb, bv)), lambda x, y, bv=bv: (x ^ bv, w))
+    t = pyrtl.WireVector(hw)
+    t <<= "%d'h%s" % (hw, hx)
+    out('assign_hex', t, lambda x, y, hv=hv, hw=hw: (hv, hw))
+    # match_bitwidth: zero extension unless signed=True is given
+    for nm, kw, sx in (('mbw', {}, False), ('mbw_unsigned', {'signed': False}, False), ('mbw_signed', {'signed': True}, True)):
+        ma, mb_ = pyrtl.match_bitwidth(a, b, **kw)
+        out(nm + '_a', ma, lambda x, y, sx=sx: ((sgn(x, wa) & M(w)) if sx else x, w))
+        out(nm + '_b', mb_, lambda x, y, sx=sx: ((sgn(y, wb) & M(w)) if sx else y, w))
     out('xor_const', a ^ Const(cv, wb), lambda x, y, cv=cv: (x ^ cv, w))
     out('or_bool', a | True, lambda x, y: (x | 1, wa))
     out('eq_int', a == cv, lambda x, y, cv=cv: (int(x == cv), 1))
@@ -123,7 +143,17 @@ def main(ctx):
     tie_bad = tie_n = 0
     for (wa, wb) in pairs:
         rng = ctx.rng
-        blk, outs = mk_design(wa, wb, rng)
+        try:
+            blk, outs = mk_design(wa, wb, rng)
+        except Exception as e:  # noqa
+            import traceback
+            tb = traceback.extract_tb(e.__traceback__)
+            line = next((f.line for f in tb if f.name == 'mk_design'), '')
+            ctx.violation('operator-raises:' + type(e).__name__, 'building `%s` with widths (%d,%d) raised %s: %s' % (
+                line.strip()[:120], wa, wb, type(e).__name__, str(e)[:160]), {'kind': 'operator-build', 'wa': wa, 'wb': wb, 'line': line})
+            if len(ctx.violations) >= 6:
+                break
+            continue
         ser = Ser(blk)
         vals, exh = values(rng, wa, wb, exl)
         steps = [{'a': x, 'b': y} for x, y in vals]
